@@ -1,6 +1,7 @@
 """C15 Bloom filter (DESIGN.md section 5 C15; A6)."""
 import bloom_rules as B
 import generic_lints
+import c19_rules
 
 
 def run(facts, tier):
@@ -8,6 +9,7 @@ def run(facts, tier):
     for name, f, mn, text in (
         ("typestate", B.typestate, 12, "every writer of the bit array is guarded against read-only filters and publishes the count / dirty marker before returning"),
         ("stale count", B.stale_count, 5, "the cached count num_bits_set_ is only read where it cannot be stale (dirty-flag discipline)"),
+        ("copy coherence", lambda fa: [o for o in c19_rules.assign_fast_paths(fa) if o["key"].startswith("bloom_filter_alloc")] + [o for o in c19_rules.special_members(fa) if o["key"].startswith("bloom_filter_alloc") and o["key"].split(":")[-1] in ("is_dirty_", "num_bits_set_", "bit_array_", "capacity_bits_", "seed_", "num_hashes_")], 10, "copies and assignments carry the dirty marker, the cached count and the hashing parameters together with the bit array on every path"),
         ("index agreement", B.index_agreement, 3, "update, query and query_and_update probe the same bit positions"),
         ("compatibility", B.compat, 3, "set operations are dominated by the compatibility check"),
         ("bit operations", B.bitops, 3, "union/intersect/invert combine every byte and count the result byte on every iteration"),
